@@ -1,7 +1,7 @@
 (* N-Triples and N-Quads: loading the text of a well-formed document adds exactly the document's
    quads to the denotation of ANY prior database that satisfies the dictionary invariant. *)
 Require Import KV.Codec13.Model KV.Codec13.Spec KV.Codec13.Wf KV.Codec13.Classes KV.Codec13.Inv.
-Require Import KV.Codec13.StrProofs KV.Codec13.ChunkProofs KV.Codec13.TokProofs KV.Codec13.DictProofs.
+Require Import KV.Codec13.StrProofs KV.Codec13.ChunkProofs KV.Codec13.TokProofs KV.Codec13.DictProofs KV.Codec13.QtDictProofs KV.Codec13.QtEncProofs.
 Require Import Lia.
 
 (* ---- encode_term_star on a lexical form that its cleaning leaves alone ---- *)
@@ -53,15 +53,18 @@ Proof.
   rewrite (trim_all_nws _ A), str_eqb_refl. reflexivity.
 Qed.
 
-Lemma wf_term_stable : forall t, wf_term_nt t = true -> term_recleaned t = false -> unstable_lex (lex [] t) = false.
+Lemma encode_star_cleaned : forall t, wf_term_nt t = true -> term_recleaned t = false ->
+  forall x, encode_star x (cleaned t) = enc_term x t.
 Proof.
-  intros t H R. destruct t as [s|l|p l|b x|s p o]; cbn [wf_term_nt] in H; try discriminate.
-  - apply iri_stable. exact H.
-  - apply bnode_stable. exact H.
-  - exact R.
+  intros t H R x. destruct t as [s|l|p l|b x0|s p o]; cbn [wf_term_nt] in H; try discriminate; cbn [cleaned enc_term].
+  - apply encode_star_stable. apply iri_stable. exact H.
+  - apply encode_star_stable. apply bnode_stable. exact H.
+  - apply encode_star_stable. exact R.
+  - apply andb_true_iff in H. destruct H as [H Ho]. apply andb_true_iff in H. destruct H as [Hs Hp].
+    unfold encode_star. apply (star_quoted s p o Hs Hp Ho).
 Qed.
 
-(* ---- Dictionary::encode does not look at the quads, DatasetIndex::insert does not look at the dictionary ---- *)
+(* ---- Dictionary / QuotedTripleStore::encode do not look at the quads, DatasetIndex::insert does not look at them ---- *)
 Lemma db_encode_add_quad : forall x q s,
   db_encode (add_quad x q) s = let (x', i) := db_encode x s in (add_quad x' q, i).
 Proof.
@@ -78,39 +81,171 @@ Proof.
   rewrite db_encode_add_quad. destruct (db_encode x2 o) as [x3 oi]. reflexivity.
 Qed.
 
-Definition stable3 (t : str * str * str) : Prop :=
-  let '(s, p, o) := t in unstable_lex s = false /\ unstable_lex p = false /\ unstable_lex o = false.
-
-Lemma encode_triple_stable : forall x s p o, stable3 (s, p, o) -> encode_triple x (s, p, o) = enc3 x s p o.
+Lemma enc_term_add_quad : forall x q t,
+  enc_term (add_quad x q) t = let (x', i) := enc_term x t in (add_quad x' q, i).
 Proof.
-  intros x s p o (Hs & Hp & Ho). unfold encode_triple, enc3.
-  rewrite encode_star_stable by exact Hs. destruct (db_encode x s) as [x1 si].
-  rewrite encode_star_stable by exact Hp. destruct (db_encode x1 p) as [x2 pi].
-  rewrite encode_star_stable by exact Ho. reflexivity.
+  intros x q t. destruct t as [s|l|p l|b x0|s p o]; cbn [enc_term]; try apply db_encode_add_quad.
+  rewrite enc3_add_quad. destruct (enc3 x (lex [] s) (lex [] p) (lex [] o)) as [x3 [[si pi] oi]].
+  destruct (add_quad_frame x3 q) as (_ & Q & _). rewrite Q.
+  destruct (qts_encode (d_qts x3) (si, pi, oi)) as [qq i]. f_equal.
+  unfold add_quad, set_qts. cbn [d_quads]. destruct (existsb (quad_eqb q) (d_quads x3)); reflexivity.
 Qed.
 
-Lemma encode_list_add_quad : forall ts, Forall stable3 ts -> forall x q,
-  encode_list (add_quad x q) ts = let (x1, es) := encode_list x ts in (add_quad x1 q, es).
+Definition enc_stmt3 (x : db) (t : term * term * term) : db * (N * N * N) :=
+  let '(s, p, o) := t in
+  let (x1, si) := enc_term x s in
+  let (x2, pi) := enc_term x1 p in
+  let (x3, oi) := enc_term x2 o in
+  (x3, (si, pi, oi)).
+
+Lemma enc_stmt3_add_quad : forall x q t,
+  enc_stmt3 (add_quad x q) t = let '(x3, e) := enc_stmt3 x t in (add_quad x3 q, e).
 Proof.
-  induction 1 as [|[[s p] o] ts Ht Hts IH]; intros x q; [reflexivity|].
-  cbn [encode_list]. rewrite !encode_triple_stable by exact Ht. rewrite enc3_add_quad.
-  destruct (enc3 x s p o) as [xa e]. rewrite IH. destruct (encode_list xa ts) as [xb es]. reflexivity.
+  intros x q [[s p] o]. unfold enc_stmt3. rewrite enc_term_add_quad. destruct (enc_term x s) as [x1 si].
+  rewrite enc_term_add_quad. destruct (enc_term x1 p) as [x2 pi].
+  rewrite enc_term_add_quad. destruct (enc_term x2 o) as [x3 oi]. reflexivity.
 Qed.
+
+(* a statement whose terms are in the subset and outside the re-cleaning class *)
+Definition term_fine (t : term) : Prop := wf_term_nt t = true /\ term_recleaned t = false.
+Definition stmt_ok (q : stmt4) : Prop :=
+  let '(s, p, o, g) := q in
+  term_fine s /\ term_fine p /\ term_fine o /\
+  match g with Some gt => wf_term_nt gt = true /\ is_quoted_term gt = false | None => True end.
+
+Definition c3 (q : stmt4) : str * str * str := drop_graph (cleaned4 q).
+Definition t3 (q : stmt4) : term * term * term := let '(s, p, o, _) := q in (s, p, o).
+
+Lemma encode_triple_cleaned : forall x q, stmt_ok q -> encode_triple x (c3 q) = enc_stmt3 x (t3 q).
+Proof.
+  intros x [[[s p] o] g] ([Ws Rs] & [Wp Rp] & [Wo Ro] & _). unfold c3, t3, cleaned4, drop_graph, encode_triple, enc_stmt3.
+  rewrite (encode_star_cleaned s Ws Rs). destruct (enc_term x s) as [x1 si].
+  rewrite (encode_star_cleaned p Wp Rp). destruct (enc_term x1 p) as [x2 pi].
+  rewrite (encode_star_cleaned o Wo Ro). reflexivity.
+Qed.
+
+Lemma encode_list_add_quad : forall qs, Forall stmt_ok qs -> forall x q,
+  encode_list (add_quad x q) (map c3 qs) = let (x1, es) := encode_list x (map c3 qs) in (add_quad x1 q, es).
+Proof.
+  induction 1 as [|t qs Ht Hqs IH]; intros x q; [reflexivity|].
+  cbn [map encode_list]. rewrite !encode_triple_cleaned by exact Ht. rewrite enc_stmt3_add_quad.
+  destruct (enc_stmt3 x (t3 t)) as [xa e]. rewrite IH. destruct (encode_list xa (map c3 qs)) as [xb es]. reflexivity.
+Qed.
+
+Definition step3 (x : db) (q : stmt4) : db := let '(x3, e) := enc_stmt3 x (t3 q) in add_triple x3 e.
 
 (* parse_ntriples_and_add (encode everything, then insert everything) = insert statement by statement *)
-Lemma encode_then_add : forall ts, Forall stable3 ts -> forall x,
-  (let (x1, es) := encode_list x ts in fold_left add_triple es x1)
-  = fold_left add_lex4 (map (fun t => (t, None)) ts) x.
+Lemma encode_then_add : forall qs, Forall stmt_ok qs -> forall x,
+  (let (x1, es) := encode_list x (map c3 qs) in fold_left add_triple es x1) = fold_left step3 qs x.
 Proof.
-  induction 1 as [|[[s p] o] ts Ht Hts IH]; intros x; [reflexivity|].
-  cbn [encode_list map fold_left add_lex4]. rewrite encode_triple_stable by exact Ht.
-  rewrite add_lex_enc3. destruct (enc3 x s p o) as [xa [[si pi] oi]].
-  rewrite <- IH. change (add_quad xa (si, pi, oi, None)) with (add_triple xa (si, pi, oi)).
-  unfold add_triple at 2. rewrite encode_list_add_quad by exact Hts.
-  destruct (encode_list xa ts) as [xb es]. cbn [fold_left]. reflexivity.
+  induction 1 as [|t qs Ht Hqs IH]; intros x; [reflexivity|].
+  cbn [map encode_list fold_left]. rewrite encode_triple_cleaned by exact Ht. unfold step3 at 2.
+  destruct (enc_stmt3 x (t3 t)) as [xa [[si pi] oi]]. rewrite <- IH.
+  unfold add_triple at 2. rewrite encode_list_add_quad by exact Hqs.
+  destruct (encode_list xa (map c3 qs)) as [xb es]. cbn [fold_left]. reflexivity.
+Qed.
+
+(* one statement, N-Quads style (graph name through Dictionary::encode) *)
+Definition step4 (x : db) (q : stmt4) : db :=
+  let '(x3, (si, pi, oi)) := enc_stmt3 x (t3 q) in
+  match snd q with
+  | None => add_quad x3 (si, pi, oi, None)
+  | Some gt => let (x4, gi) := db_encode x3 (lex [] gt) in add_quad x4 (si, pi, oi, Some gi)
+  end.
+
+Lemma step3_step4 : forall x s p o, step3 x (s, p, o, None) = step4 x (s, p, o, None).
+Proof. intros. unfold step3, step4. cbn [t3 snd]. destruct (enc_stmt3 x (s, p, o)) as [x3 [[si pi] oi]]. reflexivity. Qed.
+
+Lemma load_nq_stmt_step4 : forall x q, stmt_ok q -> load_nq_stmt x (cleaned4 q) = step4 x q.
+Proof.
+  intros x [[[s p] o] g] ([Ws Rs] & [Wp Rp] & [Wo Ro] & Hg). unfold load_nq_stmt, step4, cleaned4, enc_stmt3. cbn [t3 snd].
+  rewrite (encode_star_cleaned s Ws Rs). destruct (enc_term x s) as [x1 si].
+  rewrite (encode_star_cleaned p Wp Rp). destruct (enc_term x1 p) as [x2 pi].
+  rewrite (encode_star_cleaned o Wo Ro). destruct (enc_term x2 o) as [x3 oi].
+  destruct g as [gt|]; [|reflexivity]. cbn [option_map]. destruct Hg as [_ Hq].
+  destruct gt; try discriminate; reflexivity.
+Qed.
+
+Definition lex4 (q : stmt4) : squad := let '(s, p, o, g) := q in (lex [] s, lex [] p, lex [] o, option_map (lex []) g).
+
+Lemma add_quad_qts_ok : forall x q, qts_ok x -> qts_ok (add_quad x q).
+Proof.
+  intros x q H. destruct (add_quad_frame x q) as (D & Q & _).
+  apply (qts_ok_same x); [exact Q | | exact H]. apply ext_of_grows. apply grows_same_qts; [exact Q | rewrite D; auto].
+Qed.
+
+Lemma step4_spec : forall x q, stmt_ok q -> db_okq x -> next_id (d_dict x) + 10 <= QBIT ->
+  db_okq (step4 x q) /\
+  (forall lq, In lq (den (step4 x q)) <-> In lq (den x) \/ lq = lq_of4 (lex4 q)) /\
+  next_id (d_dict (step4 x q)) <= next_id (d_dict x) + 10 /\ ext x (step4 x q) /\ d_pref (step4 x q) = d_pref x.
+Proof.
+  intros x [[[s p] o] g] ([Ws _] & [Wp _] & [Wo _] & Hg) [[Hd Hqd] Hq] Hn. unfold step4, enc_stmt3. cbn [t3 snd].
+  destruct (enc_term x s) as [x1 si] eqn:E1.
+  assert (N1 : next_id (d_dict x) + 3 <= QBIT) by lia.
+  destruct (enc_term_spec s x x1 si Ws E1 Hd Hq N1) as (D1 & K1 & X1 & Q1 & P1 & C1 & L1 & U1).
+  destruct (enc_term x1 p) as [x2 pi] eqn:E2.
+  assert (N2 : next_id (d_dict x1) + 3 <= QBIT) by lia.
+  destruct (enc_term_spec p x1 x2 pi Wp E2 D1 K1 N2) as (D2 & K2 & X2 & Q2 & P2 & C2 & L2 & U2).
+  destruct (enc_term x2 o) as [x3 oi] eqn:E3.
+  assert (N3 : next_id (d_dict x2) + 3 <= QBIT) by lia.
+  destruct (enc_term_spec o x2 x3 oi Wo E3 D2 K2 N3) as (D3 & K3 & X3 & Q3 & P3 & C3 & L3 & U3).
+  assert (X : ext x x3) by (apply (ext_trans _ _ _ X1 (ext_trans _ _ _ X2 X3))).
+  pose proof (decode_any_ext _ _ _ _ (ext_trans _ _ _ X2 X3) C1) as C1'.
+  pose proof (decode_any_ext _ _ _ _ X3 C2) as C2'.
+  destruct g as [gt|].
+  - destruct Hg as [Wg Hgq].
+    destruct (db_encode x3 (lex [] gt)) as [x4 gi] eqn:E4.
+    assert (N4 : next_id (d_dict x3) < QBIT) by lia.
+    destruct (db_encode_spec _ _ _ _ E4 D3 N4) as (D4 & X4 & Q4 & P4 & [Cg Cg'] & L4 & U4 & T4).
+    assert (X' : ext x x4) by (apply (ext_trans _ _ _ X X4)).
+    assert (Qx : d_quads x4 = d_quads x) by congruence.
+    destruct (den_ext x x4 X' Qx Hqd) as [Dn Fq].
+    assert (Kq : quad_ok x4 (si, pi, oi, Some gi)).
+    { unfold quad_ok.
+      split; [exists (lex [] s); apply (decode_any_ext x3 x4 _ _ X4 C1')|].
+      split; [exists (lex [] p); apply (decode_any_ext x3 x4 _ _ X4 C2')|].
+      split; [exists (lex [] o); apply (decode_any_ext x3 x4 _ _ X4 C3)|].
+      exists (lex [] gt); exact Cg'. }
+    assert (Kd : den_quad x4 (si, pi, oi, Some gi) = lq_of4 (lex4 (s, p, o, Some gt))).
+    { cbn [den_quad lex4 lq_of4 lq_of option_map].
+      rewrite (decode_any_ext _ _ _ _ X4 C1'), (decode_any_ext _ _ _ _ X4 C2'), (decode_any_ext _ _ _ _ X4 C3), Cg'. reflexivity. }
+    destruct (add_quad_frame x4 (si, pi, oi, Some gi)) as (Fd & _ & Fp).
+    split; [split; [apply add_quad_ok; [split; assumption | exact Kq] | apply add_quad_qts_ok; apply (qts_ok_same x3); assumption]|].
+    split; [intro lq; rewrite den_add_quad, Dn, Kd; reflexivity|].
+    split; [rewrite Fd; lia|]. split; [apply (ext_trans _ _ _ X'); apply ext_of_grows; apply grows_same_qts; [apply add_quad_frame | rewrite Fd; auto] | rewrite Fp; congruence].
+  - assert (Qx : d_quads x3 = d_quads x) by congruence.
+    destruct (den_ext x x3 X Qx Hqd) as [Dn Fq].
+    assert (Kq : quad_ok x3 (si, pi, oi, None)).
+    { unfold quad_ok. split; [exists (lex [] s); exact C1'|]. split; [exists (lex [] p); exact C2'|]. split; [exists (lex [] o); exact C3 | exact I]. }
+    assert (Kd : den_quad x3 (si, pi, oi, None) = lq_of4 (lex4 (s, p, o, None)))
+      by (cbn [den_quad lex4 lq_of4 lq_of option_map]; rewrite C1', C2', C3; reflexivity).
+    destruct (add_quad_frame x3 (si, pi, oi, None)) as (Fd & _ & Fp).
+    split; [split; [apply add_quad_ok; [split; assumption | exact Kq] | apply add_quad_qts_ok; exact K3]|].
+    split; [intro lq; rewrite den_add_quad, Dn, Kd; reflexivity|].
+    split; [rewrite Fd; lia|]. split; [apply (ext_trans _ _ _ X); apply ext_of_grows; apply grows_same_qts; [apply add_quad_frame | rewrite Fd; auto] | rewrite Fp; congruence].
+Qed.
+
+Lemma fold_step4_spec : forall qs x, Forall stmt_ok qs -> db_okq x -> next_id (d_dict x) + 10 * N.of_nat (length qs) <= QBIT ->
+  db_okq (fold_left step4 qs x) /\
+  (forall lq, In lq (den (fold_left step4 qs x)) <-> In lq (den x) \/ In lq (map lq_of4 (map lex4 qs))) /\
+  ext x (fold_left step4 qs x) /\ d_pref (fold_left step4 qs x) = d_pref x.
+Proof.
+  induction qs as [|q qs IH]; intros x Hok Hx Hn.
+  - cbn [fold_left map In]. split; [exact Hx|]. split; [intro lq; tauto|]. split; [apply ext_refl | reflexivity].
+  - inversion Hok as [|? ? Hq Hqs]; subst. cbn [fold_left]. cbn [length] in Hn. rewrite Nat2N.inj_succ in Hn.
+    assert (N1 : next_id (d_dict x) + 10 <= QBIT) by lia.
+    destruct (step4_spec x q Hq Hx N1) as (K1 & K2 & K3 & K4 & K5).
+    assert (N2 : next_id (d_dict (step4 x q)) + 10 * N.of_nat (length qs) <= QBIT) by lia.
+    destruct (IH (step4 x q) Hqs K1 N2) as (J1 & J2 & J3 & J4).
+    split; [exact J1|]. split; [|split; [apply (ext_trans _ _ _ K4 J3) | congruence]].
+    intro lq. rewrite J2, K2. cbn [map In]. split; intro H.
+    + destruct H as [[H|H]|H]; [left; exact H | right; left; symmetry; exact H | right; right; exact H].
+    + destruct H as [H|[H|H]]; [left; left; exact H | left; right; symmetry; exact H | right; exact H].
 Qed.
 
 (* ---- documents ---- *)
+Definition doc_stmts (doc : list item) : list stmt4 := flat_map item_stmts doc.
+
 Lemma quads_no_prefix : forall doc e, wf_doc_nq doc = true -> quads_from e doc = flat_map (item_quads e) doc.
 Proof.
   induction doc as [|i doc IH]; intros e H; [reflexivity|].
@@ -120,12 +255,20 @@ Proof.
   rewrite E. apply IH. exact H.
 Qed.
 
-Lemma nq_lines : forall doc, wf_doc_nq doc = true -> flat_map nq_line (render_doc doc) = triples_of doc.
+Lemma triples_stmts : forall doc, wf_doc_nq doc = true -> triples_of doc = map lex4 (doc_stmts doc).
 Proof.
-  intros doc H. unfold triples_of. rewrite quads_no_prefix by exact H.
-  unfold render_doc. induction doc as [|i doc IH]; [reflexivity|].
+  intros doc H. unfold triples_of, doc_stmts. rewrite quads_no_prefix by exact H.
+  induction doc as [|i doc IH]; [reflexivity|].
   unfold wf_doc_nq in H. cbn [forallb] in H. apply andb_true_iff in H. destruct H as [Hi H].
-  cbn [map flat_map]. rewrite nq_line_item by exact Hi. f_equal. apply IH. exact H.
+  cbn [flat_map]. rewrite map_app, IH by exact H. f_equal.
+  destruct i as [ws|ws text|pd s p o g|name iri|s pos]; cbn [wf_item_nq] in Hi; try discriminate; try reflexivity.
+Qed.
+
+Lemma nq_lines : forall doc, wf_doc_nq doc = true -> flat_map nq_line (render_doc doc) = map cleaned4 (doc_stmts doc).
+Proof.
+  intros doc H. unfold render_doc, doc_stmts. induction doc as [|i doc IH]; [reflexivity|].
+  unfold wf_doc_nq in H. cbn [forallb] in H. apply andb_true_iff in H. destruct H as [Hi H].
+  cbn [map flat_map]. rewrite nq_line_item by exact Hi. rewrite map_app. f_equal. apply IH. exact H.
 Qed.
 
 Lemma wf_nt_nq : forall doc, wf_doc_nt doc = true -> wf_doc_nq doc = true.
@@ -136,94 +279,91 @@ Proof.
 Qed.
 
 Lemma nt_lines : forall doc, wf_doc_nt doc = true ->
-  flat_map nt_line (render_doc doc) = map drop_graph (triples_of doc) /\
-  map (fun t => (t, None)) (map drop_graph (triples_of doc)) = triples_of doc.
+  flat_map nt_line (render_doc doc) = map c3 (doc_stmts doc) /\
+  Forall (fun q => snd q = None) (doc_stmts doc).
 Proof.
-  intros doc H. unfold triples_of. rewrite quads_no_prefix by (apply wf_nt_nq; exact H).
-  unfold render_doc. induction doc as [|i doc IH]; [split; reflexivity|].
+  intros doc H. unfold render_doc, doc_stmts. induction doc as [|i doc IH]; [split; [reflexivity | constructor]|].
   unfold wf_doc_nt in H. cbn [forallb] in H. apply andb_true_iff in H. destruct H as [Hi H].
   destruct (IH H) as [IH1 IH2]. cbn [map flat_map]. rewrite nt_line_item by exact Hi.
-  rewrite map_app, map_app, IH1, IH2. split; [reflexivity|]. f_equal.
+  rewrite map_app, IH1. split; [f_equal; rewrite map_map; reflexivity|]. apply Forall_app. split; [|exact IH2].
   unfold wf_item_nt in Hi. apply andb_true_iff in Hi. destruct Hi as [Hq Hg].
-  destruct i as [ws|ws text|pd s p o g|name iri|s pos]; cbn [wf_item_nq] in Hq; try discriminate; try reflexivity.
+  destruct i as [ws|ws text|pd s p o g|name iri|s pos]; cbn [item_stmts]; try constructor; [|constructor].
   destruct g; [discriminate | reflexivity].
 Qed.
 
-Definition stable4 (q : squad) : Prop := let '(s, p, o, _) := q in stable3 (s, p, o).
-
-Lemma item_stable : forall i, wf_item_nq i = true -> existsb term_recleaned (item_terms i) = false ->
-  Forall stable4 (item_quads [] i).
+Lemma item_stmts_ok : forall i, wf_item_nq i = true -> existsb term_recleaned (item_terms i) = false ->
+  Forall stmt_ok (item_stmts i).
 Proof.
   intros i H R. destruct i as [ws|ws text|pd s p o g|name iri|s pos]; cbn [wf_item_nq] in H; try discriminate;
-    cbn [item_quads]; try constructor; [|constructor].
+    cbn [item_stmts]; try constructor; [|constructor].
   cbn [item_terms existsb] in R. apply orb_false_iff in R. destruct R as [Rs R].
   apply orb_false_iff in R. destruct R as [Rp R]. apply orb_false_iff in R. destruct R as [Ro _].
-  assert (W : wf_term_nt s = true /\ wf_term_nt p = true /\ wf_term_nt o = true).
-  { destruct g; repeat (apply andb_true_iff in H; destruct H as [H ?]); auto. }
-  destruct W as (Ws & Wp & Wo). cbn. repeat split; apply wf_term_stable; assumption.
+  destruct g as [gt|].
+  - repeat (apply andb_true_iff in H; destruct H as [H ?]). apply negb_true_iff in H0.
+    cbn. unfold term_fine. auto 10.
+  - repeat (apply andb_true_iff in H; destruct H as [H ?]). cbn. unfold term_fine. auto 10.
 Qed.
 
-Lemma doc_stable : forall doc, wf_doc_nq doc = true -> known_C13_reclean doc = false ->
-  Forall stable4 (triples_of doc).
+Lemma doc_stmts_ok : forall doc, wf_doc_nq doc = true -> known_C13_reclean doc = false ->
+  Forall stmt_ok (doc_stmts doc).
 Proof.
-  intros doc H R. unfold triples_of. rewrite quads_no_prefix by exact H.
-  induction doc as [|i doc IH]; [constructor|].
+  intros doc H R. unfold doc_stmts. induction doc as [|i doc IH]; [constructor|].
   unfold wf_doc_nq in H. cbn [forallb] in H. apply andb_true_iff in H. destruct H as [Hi H].
   unfold known_C13_reclean in R. cbn [existsb] in R. apply orb_false_iff in R. destruct R as [Ri R].
-  cbn [flat_map]. apply Forall_app. split; [apply item_stable; assumption | apply IH; assumption].
-Qed.
-
-Lemma load_nq_stmt_stable : forall qs, Forall stable4 qs -> forall x,
-  fold_left load_nq_stmt qs x = fold_left add_lex4 qs x.
-Proof.
-  induction 1 as [|[[[s p] o] g] qs Hq Hqs IH]; intro x; [reflexivity|].
-  cbn [fold_left]. rewrite IH. f_equal.
-  destruct Hq as (Hs & Hp & Ho). unfold load_nq_stmt, add_lex4, add_lex.
-  rewrite encode_star_stable by exact Hs. destruct (db_encode x s) as [x1 si].
-  rewrite encode_star_stable by exact Hp. destruct (db_encode x1 p) as [x2 pi].
-  rewrite encode_star_stable by exact Ho. reflexivity.
-Qed.
-
-Lemma stable4_drop : forall qs, Forall stable4 qs -> Forall stable3 (map drop_graph qs).
-Proof.
-  induction 1 as [|[[[s p] o] g] qs Hq Hqs IH]; [constructor|]. cbn [map drop_graph]. constructor; assumption.
+  cbn [flat_map]. apply Forall_app. split; [apply item_stmts_ok; assumption | apply IH; assumption].
 Qed.
 
 (* ---- the two main results ---- *)
 Lemma nquads_main : forall (doc : list item) (x : db),
-  wf_doc_nq doc = true -> known_C13_reclean doc = false -> db_ok x ->
-  next_id (d_dict x) + 4 * N.of_nat (length (triples_of doc)) <= QBIT ->
-  db_ok (load_nq (render_doc doc) x) /\
+  wf_doc_nq doc = true -> known_C13_reclean doc = false -> db_okq x ->
+  next_id (d_dict x) + 10 * N.of_nat (length (triples_of doc)) <= QBIT ->
+  db_okq (load_nq (render_doc doc) x) /\
   forall lq, In lq (den (load_nq (render_doc doc) x)) <-> In lq (den x) \/ In lq (map lq_of4 (triples_of doc)).
 Proof.
   intros doc x Hw Hk Hx Hn. unfold load_nq. rewrite nq_lines by exact Hw.
-  rewrite load_nq_stmt_stable by (apply doc_stable; assumption).
-  destruct (fold_add_lex_spec (triples_of doc) x Hx Hn) as (K1 & K2 & _). split; assumption.
+  pose proof (doc_stmts_ok doc Hw Hk) as Ok. rewrite (triples_stmts doc Hw) in *. rewrite map_length in Hn.
+  assert (E : fold_left load_nq_stmt (map cleaned4 (doc_stmts doc)) x = fold_left step4 (doc_stmts doc) x).
+  { clear Hn Hx. revert x. induction Ok as [|q qs Hq Hqs IH]; intro x; [reflexivity|].
+    cbn [map fold_left]. rewrite load_nq_stmt_step4 by exact Hq. apply IH. }
+  rewrite E. destruct (fold_step4_spec (doc_stmts doc) x Ok Hx Hn) as (K1 & K2 & _). split; assumption.
+Qed.
+
+Lemma load_nt_fold : forall (n : nat) (doc : list item) (x : db),
+  (1 <= n)%nat -> wf_doc_nt doc = true -> known_C13_reclean doc = false ->
+  load_nt_n n (render_doc doc) x = fold_left step4 (doc_stmts doc) x.
+Proof.
+  intros n doc x Hn1 Hw Hk. unfold load_nt_n, encode_triples. rewrite parsed_concat by exact Hn1.
+  destruct (nt_lines doc Hw) as [E1 E2]. rewrite E1.
+  pose proof (doc_stmts_ok doc (wf_nt_nq doc Hw) Hk) as Ok. rewrite (encode_then_add _ Ok).
+  clear -E2. revert x. induction E2 as [|[[[s p] o] g] qs Hq Hqs IH]; intro x; [reflexivity|].
+  cbn [snd] in Hq. subst g. cbn [fold_left]. rewrite step3_step4. apply IH.
 Qed.
 
 Lemma ntriples_main : forall (n : nat) (doc : list item) (x : db),
-  (1 <= n)%nat -> wf_doc_nt doc = true -> known_C13_reclean doc = false -> db_ok x ->
-  next_id (d_dict x) + 4 * N.of_nat (length (triples_of doc)) <= QBIT ->
-  db_ok (load_nt_n n (render_doc doc) x) /\
+  (1 <= n)%nat -> wf_doc_nt doc = true -> known_C13_reclean doc = false -> db_okq x ->
+  next_id (d_dict x) + 10 * N.of_nat (length (triples_of doc)) <= QBIT ->
+  db_okq (load_nt_n n (render_doc doc) x) /\
   forall lq, In lq (den (load_nt_n n (render_doc doc) x)) <-> In lq (den x) \/ In lq (map lq_of4 (triples_of doc)).
 Proof.
-  intros n doc x Hn1 Hw Hk Hx Hn. unfold load_nt_n, encode_triples. rewrite parsed_concat by exact Hn1.
-  destruct (nt_lines doc Hw) as [E1 E2]. rewrite E1.
-  pose proof (doc_stable doc (wf_nt_nq doc Hw) Hk) as St.
-  rewrite (encode_then_add _ (stable4_drop _ St)). rewrite E2.
-  destruct (fold_add_lex_spec (triples_of doc) x Hx Hn) as (K1 & K2 & _). split; assumption.
+  intros n doc x Hn1 Hw Hk Hx Hn. rewrite (load_nt_fold n doc x Hn1 Hw Hk).
+  pose proof (doc_stmts_ok doc (wf_nt_nq doc Hw) Hk) as Ok.
+  rewrite (triples_stmts doc (wf_nt_nq doc Hw)) in *. rewrite map_length in Hn.
+  destruct (fold_step4_spec (doc_stmts doc) x Ok Hx Hn) as (K1 & K2 & _). split; assumption.
 Qed.
 
 Lemma chunk_pos : (1 <= CHUNK)%nat.
 Proof. apply PeanoNat.Nat.leb_le. vm_compute. reflexivity. Qed.
 
 Lemma ntriples_1000 : forall (doc : list item) (x : db),
-  wf_doc_nt doc = true -> known_C13_reclean doc = false -> db_ok x ->
-  next_id (d_dict x) + 4 * N.of_nat (length (triples_of doc)) <= QBIT ->
-  db_ok (load_nt (render_doc doc) x) /\
+  wf_doc_nt doc = true -> known_C13_reclean doc = false -> db_okq x ->
+  next_id (d_dict x) + 10 * N.of_nat (length (triples_of doc)) <= QBIT ->
+  db_okq (load_nt (render_doc doc) x) /\
   forall lq, In lq (den (load_nt (render_doc doc) x)) <-> In lq (den x) \/ In lq (map lq_of4 (triples_of doc)).
 Proof. intros. apply ntriples_main; try assumption. apply chunk_pos. Qed.
 
-(* the empty database satisfies the invariant *)
+(* the empty database satisfies the invariants *)
 Lemma db_new_ok : db_ok db_new.
 Proof. split; [split; intros; discriminate | constructor]. Qed.
+
+Lemma db_new_okq : db_okq db_new.
+Proof. split; [exact db_new_ok | apply qts_ok_new; reflexivity]. Qed.
